@@ -125,11 +125,30 @@ def imp_case(draw, tier='quick'):
                 row[p] = float(draw(st.sampled_from([1, 1, 2, 4, 0, 0.5, 8])))
         vals.append(row)
     # monotone runs make nI / nM applicable
-    if draw(st.integers(0, 2)) == 0 and n >= 4:
+    prog = draw(st.integers(0, 5))
+    if prog in (0, 1) and n >= 4:
         start = draw(st.integers(0, n - 3))
         for k, q in enumerate(range(start, min(n, start + 4))):
             vals[q][parts[0]] = float(1 + k)
         labels.add('progression')
+    elif prog == 2 and n >= 3:
+        # a linear descent that ends in a cell of zero importance, e.g.
+        # 1, 2/3, 1/3, 0 (written "1 2i 0"): the end point is exactly zero
+        r = draw(st.integers(2, min(n - 1, 9)))
+        start = draw(st.integers(0, n - 1 - r))
+        for p in parts:
+            for j in range(r):
+                vals[start + j][p] = 1.0 - j / float(r)
+            vals[start + r][p] = 0.0
+        labels.add('progression:down-to-zero')
+    elif prog == 3 and n >= 3:
+        r = draw(st.integers(2, min(n - 1, 9)))
+        start = draw(st.integers(0, n - 1 - r))
+        for p in parts:
+            vals[start][p] = 0.0
+            for j in range(1, r + 1):
+                vals[start + j][p] = j / float(r)
+        labels.add('progression:up-from-zero')
     deck = md.new_deck()
     for q in range(n + 1):
         deck['surfaces'].append(md.surf(q + 1, 'px', [float(q)]))
